@@ -888,7 +888,7 @@ class Body:
                 return False, "assigned something that is not `itself + 1`"
             a, c = src["ops"][0], src["ops"][1]
             pa = op_place(a)
-            if pa is None or pa["proj"] or self.copy_root(a, (bb, idx))[0] != local or not (isinstance(c, dict) and c.get("const", "").replace("const ", "").startswith("1_")):
+            if pa is None or pa["proj"] or (self.copy_root(a, (bb, idx)) or (None,))[0] != local or not (isinstance(c, dict) and c.get("const", "").replace("const ", "").startswith("1_")):
                 return False, "assigned something that is not `itself + 1`"
             incs.append(bb)
         if not incs:
